@@ -22,12 +22,12 @@ _perf = runner._perf
 
 TIERS = {
     # engine -> number of runs
-    'quick': {'H': 1600, 'N': 2200, 'T': 1000},
+    'quick': {'H': 1500, 'N': 2000, 'T': 900},
     'thorough': {'H': 50000, 'N': 70000, 'T': 30000},
 }
 ENGINE_OFFSET = {'H': 0, 'N': 10 ** 9, 'T': 2 * 10 ** 9}
 # engine S (stratified pre-emption sweep): boundaries tried per callable (0 = every boundary)
-SWEEP_CAP = {'quick': 6, 'thorough': 0}
+SWEEP_CAP = {'quick': 4, 'thorough': 0}
 
 
 def _watchdog(seconds, what):
